@@ -116,3 +116,34 @@ func init() {
 		Old: "\t\tdefinedUnionTypes := map[string]bool{}\n", New: "\t\tdefinedUnionTypes := map[string]bool{}\n\t\t_ = fmt.Sprint(time.Now())\n", Expect: "no-ambient-state",
 		More: []Edit{{"gogen/codegen.go", "import (\n", "import (\n\t\"time\"\n"}}})
 }
+
+func init() {
+	// C15
+	addMutant(Mutant{Name: "c15-append-no-dup-check", Property: "C15", File: "gogen/ordered_list.go",
+		Old: "\tif _, ok := o.valueMap[key]; ok {\n\t\treturn fmt.Errorf(\"duplicate key for list Statement %v\", key)\n\t}\n\to.keys = append(o.keys, key)\n\to.init()\n\to.valueMap[key] = v", New: "\to.keys = append(o.keys, key)\n\to.init()\n\to.valueMap[key] = v", Expect: "Append:duplicate-rejected"})
+	addMutant(Mutant{Name: "c15-append-write-before-check", Property: "C15", File: "gogen/ordered_list.go",
+		Old: "\tif _, ok := o.valueMap[key]; ok {\n\t\treturn fmt.Errorf(\"duplicate key for list Statement %v\", key)\n\t}\n\to.keys = append(o.keys, key)\n\to.init()\n\to.valueMap[key] = v", New: "\to.keys = append(o.keys, key)\n\tif _, ok := o.valueMap[key]; ok {\n\t\treturn fmt.Errorf(\"duplicate key for list Statement %v\", key)\n\t}\n\to.init()\n\to.valueMap[key] = v", Expect: "Append:errors-before-writes"})
+	addMutant(Mutant{Name: "c15-keys-aliased", Property: "C15", File: "gogen/ordered_list.go",
+		Old: "\treturn append([]{{ .KeyName }}{}, o.keys...)", New: "\treturn o.keys", Expect: "Keys:copy"})
+	addMutant(Mutant{Name: "c15-delete-map-only", Property: "C15", File: "gogen/ordered_list.go",
+		Old: "\t\t\to.keys = append(o.keys[:i], o.keys[i+1:]...)\n", New: "\t\t\t_ = i\n", Expect: "Delete:both-or-neither"})
+	addMutant(Mutant{Name: "c15-appendnew-key-leaf-unset", Property: "C15", File: "gogen/ordered_list.go",
+		Old: "\t\t{{- if $key.IsScalarField }}\n\t\t{{ $key.Name }}: &{{ $key.Name }},\n\t\t{{- else }}\n\t\t{{ $key.Name }}: {{ $key.Name }},\n\t\t{{- end -}}\n\t\t{{- end }}\n\t}\n\to.init()", New: "\t\t{{- if $key.IsScalarField }}\n\t\t{{ $key.Name }}: &{{ $key.Name }},\n\t\t{{- end -}}\n\t\t{{- end }}\n\t}\n\to.init()", Expect: "AppendNew:new-element-keys"})
+	addMutant(Mutant{Name: "c15-values-map-order", Property: "C15", File: "gogen/ordered_list.go",
+		Old: "\tfor _, key := range o.keys {\n\t\tvalues = append(values, o.valueMap[key])\n\t}", New: "\tfor _, v := range o.valueMap {\n\t\tvalues = append(values, v)\n\t}", Expect: "Values:in-key-order"})
+	addMutant(Mutant{Name: "c15-parent-get-creates", Property: "C15", File: "gogen/ordered_list.go",
+		Old: "\tif s == nil {\n\t\treturn nil\n\t}\n\t{{ if gt (len .Keys) 1 -}}", New: "\tif s == nil {\n\t\treturn nil\n\t}\n\tif s.{{ .ListFieldName }} == nil {\n\t\ts.{{ .ListFieldName }} = &{{ .StructName }}{}\n\t}\n\t{{ if gt (len .Keys) 1 -}}", Expect: "GetL:read-only"})
+	addMutant(Mutant{Name: "c15-keys-reversed", Property: "C15", File: "internal/yreflect/reflect_orderedmap.go",
+		Old: "\tfor i := 0; i != keys.Len(); i++ {\n\t\tkeySlice = append(keySlice, keys.Index(i))\n\t}", New: "\tfor i := keys.Len() - 1; i >= 0; i-- {\n\t\tkeySlice = append(keySlice, keys.Index(i))\n\t}", Expect: "OrderedMapKeys:in-order"})
+	// C34
+	addMutant(Mutant{Name: "c34-get-creates-map", Property: "C34", File: "gogen/unordered_list.go",
+		Old: "\tif t == nil {\n\t\treturn nil\n\t}\n\n  {{ if ne .KeyStruct \"\" -}}", New: "\tif t == nil {\n\t\treturn nil\n\t}\n\tif t.{{ .ListName }} == nil {\n\t\tt.{{ .ListName }} = nil\n\t}\n\n  {{ if ne .KeyStruct \"\" -}}", Expect: "Get:read-only"})
+	addMutant(Mutant{Name: "c34-new-overwrites", Property: "C34", File: "gogen/unordered_list.go",
+		Old: "\tif _, ok := t.{{ .ListName }}[key]; ok {\n\t\treturn nil, fmt.Errorf(\"duplicate key %v for list {{ .ListName }}\", key)\n\t}\n", New: "", Expect: "New:duplicate-rejected"})
+	addMutant(Mutant{Name: "c34-rename-no-delete", Property: "C34", File: "gogen/unordered_list.go",
+		Old: "\tt.{{ .ListName }}[newK] = e\n\tdelete(t.{{ .ListName }}, oldK)\n", New: "\tt.{{ .ListName }}[newK] = e\n", Expect: "Rename:moves-entry"})
+	addMutant(Mutant{Name: "c34-append-nil-unchecked", Property: "C34", File: "gogen/unordered_list.go",
+		Old: "\t{{- if $key.IsScalarField -}}\n\tif v.{{ $key.Name }} == nil {\n\t\treturn fmt.Errorf(\"invalid nil key for {{ $key.Name }}\")\n\t}\n\n\t{{ end -}}\n\t{{- end -}}\n\tkey := {{ .KeyStruct }}{", New: "\t{{- end -}}\n\tkey := {{ .KeyStruct }}{", Expect: "Append:nil-keys-rejected"})
+	addMutant(Mutant{Name: "c34-getorcreate-always-new", Property: "C34", File: "gogen/unordered_list.go",
+		Old: "\tif v, ok := t.{{ .ListName }}[key]; ok {\n\t\treturn v\n\t}\n", New: "\tif v, ok := t.{{ .ListName }}[key]; ok && v == nil {\n\t\treturn v\n\t}\n", Expect: "GetOrCreate:new-only-on-miss"})
+}
